@@ -98,7 +98,7 @@ func genSiCase(t *rapid.T) siCase {
 	lo, hi, interval := 0, 0, rapid.IntRange(0, 3).Draw(t, "interval") == 0
 	if interval {
 		lo = rapid.IntRange(-8, 5).Draw(t, "lo")
-		hi = lo + rapid.IntRange(1, 14).Draw(t, "runlen")
+		hi = lo + rapid.IntRange(1, 40).Draw(t, "runlen")
 		m := map[int]bool{}
 		for v := lo; v <= hi; v++ {
 			m[v] = true
@@ -298,6 +298,23 @@ func genSfCase(t *rapid.T) sfCase {
 		if rapid.Bool().Draw(t, "swap") {
 			c.A, c.B = c.B, c.A
 		}
+		return c
+	}
+	if rapid.IntRange(0, 7).Draw(t, "nearinterval") == 0 {
+		// a run of 3..70 consecutive integers with one or two holes, probed at a hole or an end
+		lo := rapid.IntRange(-9, 5).Draw(t, "lo")
+		L := rapid.IntRange(3, 70).Draw(t, "runlen")
+		m := map[int]bool{}
+		for v := lo; v < lo+L; v++ {
+			m[v] = true
+		}
+		hole := rapid.IntRange(lo, lo+L-1).Draw(t, "hole")
+		delete(m, hole)
+		if rapid.Bool().Draw(t, "second") {
+			delete(m, rapid.IntRange(lo, lo+L-1).Draw(t, "hole2"))
+		}
+		c.A = sortedKeys(m)
+		c.X = rapid.SampledFrom([]int{hole, hole, lo - 1, lo + L, lo, lo + L - 1}).Draw(t, "probe")
 		return c
 	}
 	if rapid.IntRange(0, 11).Draw(t, "bothlong") == 0 {
